@@ -87,16 +87,27 @@ and judge_case (c : cursor) (r : cursor) : bool * string =
     let fobj = next_q r in
     let fw = next_qs r in
     let nw = int_of_nat (nweights cb ac) in
+    (* model: the repaired code (constant basis without any basis named by rules over factor 0);
+       [flp_system] is the unrepaired code for that input and the same system for every other *)
+    let order = flp_order_r s cb bb ac in
+    let (mrows, mn) = flp_system_r s cb bb ac order in
+    let const_only = ac && cb = [] in
+    let rows_form =
+      (try compare_rows site mrows rrows; `Repaired
+       with Disagreement _ as e ->
+         if not const_only then `Mismatch e
+         else (try compare_rows site (fst (flp_system s cb bb ac (flp_order s cb bb ac))) rrows; `Orig
+               with Disagreement _ -> `Mismatch e)) in
+    let clause = if const_only && rows_form = `Orig then "factored_projection_eq_flat_constant_without_basis"
+                 else "factored_projection_eq_flat" in
     (* ---- O: the returned weights minimise the max-norm error (flat LP optimum) ---- *)
-    if not ok && (res = 2 || res = 3) then oracle_fail "factored_projection_eq_flat" site "LP reported infeasible/unbounded although the flat LP is always feasible and bounded";
+    if not ok && (res = 2 || res = 3) then oracle_fail clause site "LP reported infeasible/unbounded although the flat LP is always feasible and bounded";
     if not ok then begin
       (* solver gave up (NUMFAILURE / ACCURACYERROR ...): only the constraint system is compared *)
-      let order = flp_order s cb bb ac in
-      let (mrows, _) = flp_system s cb bb ac order in
-      compare_rows site mrows rrows;
+      (match rows_form with `Mismatch e -> raise e | _ -> ());
       raise (Solver_gave_up (if ac then "flp-const-solver-gave-up" else "flp-solver-gave-up"))
     end;
-    if List.length w <> nw then oracle_fail "factored_projection_eq_flat" site "wrong number of weights returned";
+    if List.length w <> nw then oracle_fail clause site "wrong number of weights returned";
     if not fok then disagree "flat_reference" "LP::solve" "flat LP not solved";
     let e_fact = flat_maxerr s cb bb ac w in
     let fwts = List.filteri (fun i _ -> i < nw) fw in
@@ -105,27 +116,27 @@ and judge_case (c : cursor) (r : cursor) : bool * string =
     if not (q_le e_flat (q_add fobj tol6)) then
       disagree "flat_reference" "LP::solve" (Printf.sprintf "flat LP objective %s but its weights have error %s" (string_of_q fobj) (string_of_q e_flat));
     if not (q_le e_fact (q_add fobj tol6)) then
-      oracle_fail "factored_projection_eq_flat" site
+      oracle_fail clause site
         (Printf.sprintf "max-norm error of the factored LP's weights %s exceeds the flat optimum %s" (string_of_q e_fact) (string_of_q fobj));
     if not (q_le fobj (q_add e_fact tol6)) then
       disagree "flat_reference" "LP::solve" (Printf.sprintf "flat LP objective %s above the error %s of the factored weights" (string_of_q fobj) (string_of_q e_fact));
     (* ---- C: rows pushed == model rows; implementation's solution satisfies the model's rows ---- *)
-    let order = flp_order s cb bb ac in
-    (* the modelled heuristic order eliminates every variable once: hypothesis order_ok of the theorems *)
+    (* the modelled heuristic order eliminates every variable once (also a theorem: code_order_ok) *)
     if List.sort compare (il order) <> List.init (List.length s) (fun i -> i) then
       disagree "order_ok" "FactorGraph::bestVariableToRemove" ("modelled order is not a permutation: " ^ str_nats order);
-    let (mrows, mn) = flp_system s cb bb ac order in
-    compare_rows site mrows rrows;
-    if int_of_nat mn <> ncols then disagree "constraint_columns" site (Printf.sprintf "model %d columns, implementation %d" (int_of_nat mn) ncols);
-    (match first_violated tol6 sol mrows with
-     | Some i -> disagree "solution_feasible_in_model" site (Printf.sprintf "implementation's LP solution violates model row %d" (int_of_nat i))
-     | None -> ());
-    (* completeness direction on this instance: phi of the solution bounds the exact error *)
-    let phi = List.nth sol nw in
-    if not (q_le e_fact (q_add phi tol5)) then
-      disagree "phi_bounds_error" site (Printf.sprintf "phi %s below exact error %s" (string_of_q phi) (string_of_q e_fact));
+    (match rows_form with `Mismatch e -> raise e | _ -> ());
+    if rows_form = `Repaired then begin
+      if int_of_nat mn <> ncols then disagree "constraint_columns" site (Printf.sprintf "model %d columns, implementation %d" (int_of_nat mn) ncols);
+      (match first_violated tol6 sol mrows with
+       | Some i -> disagree "solution_feasible_in_model" site (Printf.sprintf "implementation's LP solution violates model row %d" (int_of_nat i))
+       | None -> ());
+      (* completeness direction on this instance: phi of the solution bounds the exact error *)
+      let phi = List.nth sol nw in
+      if not (q_le e_fact (q_add phi tol5)) then
+        disagree "phi_bounds_error" site (Printf.sprintf "phi %s below exact error %s" (string_of_q phi) (string_of_q e_fact))
+    end;
     let overlapping = List.exists (fun f -> List.length f.bfTag > 1) (cb @ bb) in
-    (List.length s > 1 && overlapping, (if ac then "flp-const" else "flp"))
+    (List.length s > 1 && overlapping, (if const_only then "flp-const-only" else if ac then "flp-const" else "flp"))
   | "mlp" ->
     let site = "LinearProgramming::solveLP" in
     let s = next_nats c in
@@ -216,6 +227,21 @@ and judge_case (c : cursor) (r : cursor) : bool * string =
       end
     end;
     (* ---- C ---- *)
+    (* the returned Q-function against its model (C15.ModelQ.lp_result_q with g taken from the real
+       backProject): operator*=(discount * v) then plusEqual(…, R), C14's models; compared through the
+       flat value at every joint (s, a) (theorem q_is_backup is about this model) *)
+    if solved then begin
+      let conv (b : bm) : bm0 = { bmTag0 = b.bmTag; bmActionTag = b.bmATag; bmVals0 = b.bmVals } in
+      let qm = plusEqualFM s a (scaleW2D (List.map conv g) (List.map (fun x -> vio_qmult gam x) w)) (List.map conv rw) in
+      let acts = Array.of_list (all_assign_idx a) in
+      let qa = Array.of_list qv in
+      for st = 0 to ns - 1 do for ac = 0 to na - 1 do
+        let mv = getValue2D s a qm states.(st) acts.(ac) in
+        if not (q_close qa.(st * na + ac) mv) then
+          disagree "lp_result_q" "LinearProgramming::operator()"
+            (Printf.sprintf "Q(%d,%d): implementation %s, model %s" st ac (string_of_q qa.(st * na + ac)) (string_of_q mv))
+      done done
+    end;
     if List.sort compare (il order) <> List.init (List.length s + List.length a) (fun i -> i) then
       disagree "order_ok" "FactorGraph::bestVariableToRemove" ("modelled order is not a permutation: " ^ str_nats order);
     (* the unrepaired makeResult pushes one row per final factor: accepted as the other modelled
